@@ -499,13 +499,16 @@ pub fn gen_case(rng: &mut Rng, steps: usize) -> (Case, Profile) {
     let in_addrs: Vec<Addr> = all_addrs(&globals, &progs, &fbs).into_iter().filter(|a| a.area == 'I').collect();
     let m_addrs: Vec<Addr> = all_addrs(&globals, &progs, &fbs).into_iter().filter(|a| a.area == 'M').collect();
     let store = rng.chance(1, 2);
+    let scripted_store = store && rng.chance(1, 3);
+    let store_starts_unwritable = store && rng.chance(1, 4);
+    let mut writable = !store_starts_unwritable;
     if store {
         history.push(Step::Store(rng.chance(1, 2)));
     }
     let dts = [0i64, 5, 10, 10, 20, 35];
     history.push(Step::Cycle(*rng.pick(&dts) * 1_000_000));
     for _ in 0..steps {
-        let r = rng.below(100);
+        let r = rng.below(if store { 112 } else { 100 });
         let step = match r {
             0..=41 => Step::Cycle(*rng.pick(&dts) * 1_000_000),
             42..=55 => {
@@ -535,15 +538,57 @@ pub fn gen_case(rng: &mut Rng, steps: usize) -> (Case, Profile) {
             86..=89 if store => Step::Save,
             90..=94 if store => Step::Power(*rng.pick(&[None, None, Some(Mode::Warm), Some(Mode::Cold)])),
             95..=99 if store => Step::Rwr(*rng.pick(&[Mode::Warm, Mode::Cold])),
+            100..=103 if store => {
+                // the medium changes state (the file medium only ever appears)
+                if !writable {
+                    writable = true;
+                    Step::EnvW(true)
+                } else if scripted_store {
+                    writable = false;
+                    Step::EnvW(false)
+                } else {
+                    Step::Save
+                }
+            }
+            104..=111 if store => {
+                // failing-store episode: a save that fails, the medium recovers, the retry with
+                // unchanged retained values, and (often) a new process that loads the result
+                if writable && scripted_store {
+                    history.push(Step::EnvW(false));
+                    writable = false;
+                }
+                if !writable {
+                    history.push(Step::Save);
+                    history.push(Step::EnvW(true));
+                    writable = true;
+                }
+                history.push(Step::Save);
+                if rng.chance(1, 2) {
+                    Step::Power(*rng.pick(&[None, None, Some(Mode::Warm)]))
+                } else {
+                    Step::Restart(Mode::Warm)
+                }
+            }
             _ => Step::Cycle(*rng.pick(&dts) * 1_000_000),
         };
-        // a seeded %M write right before a cycle exercises the marker image
         history.push(step);
     }
     history.push(Step::Cycle(10_000_000));
 
     (
-        Case { config_mode, fbs, globals, progs, tasks, access, cfg_inits, history, twin: true },
+        Case {
+            config_mode,
+            fbs,
+            globals,
+            progs,
+            tasks,
+            access,
+            cfg_inits,
+            history,
+            twin: true,
+            scripted_store,
+            store_starts_unwritable,
+        },
         profile,
     )
 }
